@@ -30,7 +30,7 @@ from verif.rules.common import is_gate, rejection_sites
 rej = {}
 for q, fi in sorted(repo.functions.items()):
     if is_gate(fi):
-        rej[q] = rejection_sites(ck, q)
+        rej[q] = sorted({a.lstrip("?") for a in rejection_sites(ck, q)})
 json.dump(rej, open(os.path.join(ref, "rejections.json"), "w"), indent=0, sort_keys=True)
 glob_names = sorted("%s.%s" % (m.name, n) for m in repo.modules.values() for n in m.assign_nodes)
 json.dump(glob_names, open(os.path.join(ref, "api_globals.json"), "w"), indent=0)
